@@ -46,6 +46,7 @@ func Dial(addr string, opts *ClientOpts) (Client, error) {
 		grpc.WithInsecure(),
 		grpc.WithDialer(opts.Dialer),
 		grpc.WithCodec(Codec),
+		grpc.WithDefaultCallOptions(grpc.MaxCallRecvMsgSize(MaxMessageSize), grpc.MaxCallSendMsgSize(MaxMessageSize)),
 		grpc.WithBackoffMaxDelay(1*time.Minute))
 	if err != nil {
 		return nil, err
